@@ -13,6 +13,7 @@ import warnings
 import numpy as np
 from sklearn.exceptions import NotFittedError
 
+import os
 import core
 import gen
 import lifecycle
@@ -236,6 +237,20 @@ def run(ctx):
   for g, cfgname in (('thr', 'TR_Lifecycle_thr.cfg'), ('nothr', 'TR_Lifecycle_nothr.cfg')):
     sub = [(r, t) for r, t in pairs if r['src'] == 'life' and (r['est'] in lifecycle.PAIR_CLASSIFIERS) == (g == 'thr')]
     core.judge(ctx, 'TR_Lifecycle', cfgname, sub, signature_of, tag='TR_Lifecycle_' + g)
+  # uses of not-yet-fitted estimators by the repository's own tests (ObjLife!UnfittedRaises)
+  import suite
+  evs, summary = core.record_suite_calls(os.path.join(ctx.work, 'suite'),
+                                         files=['test/test_pairs_classifiers.py', 'test/test_triplets_classifiers.py',
+                                                'test/test_quadruplets_classifiers.py', 'test/test_utils.py'] if ctx.quick else ['test/'])
+  lp = suite.judge_life(ctx, evs, 300 if ctx.quick else 0)
+  ctx.extra['suite_object_histories']['pytest_summary'] = summary
+
+  def unfitted_answers(t):
+    e = next(e for e in t['events'] if not e['before']['fitted'] and e['act'] != 'fit' and e['exc'] == 'NotFittedError')
+    e['exc'] = ''
+  lgood = next(t for r, t in lp if any(not e['before']['fitted'] and e['act'] != 'fit' and e['exc'] == 'NotFittedError'
+                                       for e in t['events']))
+  core.selftest_binding(ctx, *suite.LIFE_SPEC, lgood, unfitted_answers, 'C18.suite_unfitted_use_raises', 'suite_unfitted_use_answers')
   nparam = 0
   for r, t in pairs:
     if r['src'] == 'params':
@@ -261,6 +276,6 @@ def replay(path, frozen=False):
   import json
   body = json.load(open(path))
   r = body['recipe']
-  if r['src'] in ('params', 'alias'):
+  if r.get('src') in ('params', 'alias'):
     return core.standard_replay(MOD, PID, 'TR_Params', 'TR_Params.cfg', path, frozen)
   return core.standard_replay(MOD, PID, *c17.spec_for(r['est']), path, frozen)
